@@ -121,11 +121,12 @@ Definition dnode_nullable (n : dnode) : bool :=
 Definition dabsorbs (item : dnode) : bool :=
   match item with DObj _ nl _ _ _ | DArr _ nl _ => nl | DLeaf _ => false end.
 (* fieldNodeKindAllowsSeek *)
-Definition allows_seek (v : dnode) : bool :=
+(* a list is entered when its innermost item is an object (lists of lists included) *)
+Fixpoint allows_seek (v : dnode) : bool :=
   match v with
   | DObj _ _ _ _ _ => true
-  | DArr _ _ (DObj _ _ _ _ _) => true
-  | _ => false
+  | DArr _ _ item => allows_seek item
+  | DLeaf _ => false
   end.
 
 Section Defer.
@@ -386,7 +387,8 @@ Section Defer.
         (rv, d2, ws_torn st2)
       | _ => (JNull, data1, false)
       end in
-    let live := live_children 0 data2 in
+    (* with "data":null nothing is announced: the response is complete *)
+    let live := match s1 with WOk => live_children 0 data2 | _ => [] end in
     let j := JObj ((match ws_errs st1 with [] => [] | e => [(k_errors, errs_json e)] end)
                      ++ [(k_data, data_member)]
                      ++ pending_members live
@@ -400,13 +402,16 @@ Section Defer.
   Definition render_batch (root : dnode) (data : json) (d : ddesc) (outstanding : Z)
     : frame * json * list ddesc * Z :=
     let '(data1, _, _, st1) := dwalk (Some d) root data [] [] false false (wst0 []) in
-    let skip := ws_null st1 in
+    let skip0 := ws_null st1 in
     let '(data2, items, errs, torn) :=
-      if skip then (data1, [], ws_errs st1, false)
+      if skip0 then (data1, [], ws_errs st1, false)
       else
         let '(d2, _, _, st2) := dwalk (Some d) root data1 [] [] true false (wst0 (ws_errs st1)) in
         (d2, ws_items st2, ws_errs st2, ws_torn st2) in
-    let live := live_children (dd_id d) data2 in
+    (* no item although errors were collected: they go on the completed entry *)
+    let skip := skip0 || (negb (nonempty items) && nonempty errs) in
+    (* a defer that delivers nothing announces no children *)
+    let live := if skip then [] else live_children (dd_id d) data2 in
     let outstanding' := (outstanding + Z.of_nat (length live) - 1)%Z in
     let has_next := negb (outstanding' =? 0)%Z in
     let completed_entry :=
